@@ -56,9 +56,54 @@ var installers = []func(dst, src *secp256k1.Scalar){
 // NumInstallers is the number of object-history recipes.
 var NumInstallers = len(installers)
 
+// Hist values >= ProvBase select an *arithmetic provenance* instead: the scalar is the result of an operation of the
+// package on operands computed by the model (Multiply(a, v/a), Add(a, v-a), Subtract(a, a-v), Square(sqrt v),
+// Invert(1/v)), so its stored form is whatever that operation leaves behind.
+const (
+	ProvBase = 100
+	NumProv  = 5
+)
+
+func limbScalar(v *big.Int) *secp256k1.Scalar {
+	out := secp256k1.NewScalar()
+	l := gen.ToLimbs(new(big.Int).Mod(new(big.Int).Mul(v, rN), ref.N))
+	copy(out.S[:], l[:])
+	return out
+}
+
+func provenance(v *big.Int, kind int) *secp256k1.Scalar {
+	a := new(big.Int).Mul(v, new(big.Int).SetUint64(0x9E3779B97F4A7C15))
+	a.Add(a, big.NewInt(0x1234567)).Mod(a, ref.N)
+	if a.Sign() == 0 {
+		a.SetInt64(3)
+	}
+	switch kind % NumProv {
+	case 0:
+		b := new(big.Int).Mod(new(big.Int).Mul(v, new(big.Int).ModInverse(a, ref.N)), ref.N)
+		return limbScalar(a).Multiply(limbScalar(b))
+	case 1:
+		return limbScalar(a).Add(limbScalar(new(big.Int).Mod(new(big.Int).Sub(v, a), ref.N)))
+	case 2:
+		return limbScalar(a).Subtract(limbScalar(new(big.Int).Mod(new(big.Int).Sub(a, v), ref.N)))
+	case 3:
+		if r := new(big.Int).ModSqrt(v, ref.N); r != nil {
+			return limbScalar(r).Square()
+		}
+		return provenance(v, 0)
+	default:
+		if v.Sign() == 0 {
+			return provenance(v, 1)
+		}
+		return limbScalar(new(big.Int).ModInverse(v, ref.N)).Invert()
+	}
+}
+
 // Build constructs the scalar: canonical values through Decode, Montgomery patterns by writing limbs; with
 // Hist > 0 the value is installed into an object that was used before.
 func (s SV) Build() *secp256k1.Scalar {
+	if s.Hist >= ProvBase {
+		return provenance(s.Value(), s.Hist-ProvBase)
+	}
 	if s.Hist > 0 {
 		fresh := SV{Hex: s.Hex, Mont: s.Mont}.Build()
 		used := secp256k1.NewScalar().SetUInt64(0xdeadbeef)
@@ -90,6 +135,8 @@ func SVGen() *rapid.Generator[SV] {
 		sv := SV{Hex: gen.H(v), Mont: mont}
 		if gen.Chance(t, "hist", 1, 4) {
 			sv.Hist = 1 + gen.Pick(t, "installer", NumInstallers)
+		} else if gen.Chance(t, "prov", 1, 6) {
+			sv.Hist = ProvBase + gen.Pick(t, "provenance", NumProv)
 		}
 		return sv
 	})
